@@ -536,6 +536,27 @@ func (ex *Exec) interpret(fn *ssa.Function, args []Value) Value {
 		}
 		symJump = false
 		var next *ssa.BasicBlock
+		// phi nodes of a block are evaluated in parallel (swap patterns)
+		{
+			var phis []*ssa.Phi
+			var vals []Value
+			for _, in := range b.Instrs {
+				x, ok := in.(*ssa.Phi)
+				if !ok {
+					break
+				}
+				for i, pb := range b.Preds {
+					if pb == prev {
+						phis = append(phis, x)
+						vals = append(vals, ex.get(fr, x.Edges[i]))
+						break
+					}
+				}
+			}
+			for i, x := range phis {
+				fr.env[x] = vals[i]
+			}
+		}
 		for _, in := range b.Instrs {
 			ex.steps++
 			if ex.steps > ex.P.MaxSteps {
@@ -546,12 +567,7 @@ func (ex *Exec) interpret(fn *ssa.Function, args []Value) Value {
 			}
 			switch x := in.(type) {
 			case *ssa.Phi:
-				for i, pb := range b.Preds {
-					if pb == prev {
-						fr.env[x] = ex.get(fr, x.Edges[i])
-						break
-					}
-				}
+				// handled above
 			case *ssa.If:
 				c := term(ex.get(fr, x.Cond))
 				symJump = !c.IsConst()
